@@ -850,4 +850,129 @@ Proof.
   intros Hw Hv Hs Hn HP. destruct (reach_both w ops r Hw Hv Hs) as (R&_). eapply Peek_live; eauto.
 Qed.
 
+(** * at the end of the stream every accepted buffer has been released *)
+Lemma readLoop_eof_state : forall fuel s n acc s' d bug, readLoop fuel s n acc = (s', d, EEOF, bug) ->
+  cur s' = [] /\ curIsLast s' = true.
+Proof.
+  induction fuel as [|fuel IH]; intros s n acc s' d bug H; simpl in H; [inversion H|].
+  destruct (n <=? len acc).
+  { destruct (remoteEffective s); inversion H. exfalso. eapply cancel_rerr_not_eof; eauto. }
+  destruct (if (match cur s with [] => true | _ => false end) || (len (cur s) <=? rpif s) then dequeue s else (s, false)) as [s1 b1].
+  destruct b1; [inversion H|].
+  destruct ((match cur s1 with [] => true | _ => false end) && (0 <? len acc)).
+  { destruct (shutdown s1); inversion H. }
+  destruct (shutdown s1); [inversion H|].
+  destruct (cancelledLocally s1 || remoteEffective s1).
+  { inversion H. exfalso. eapply cancel_rerr_not_eof; eauto. }
+  destruct (negb _); [inversion H|].
+  match type of H with (if ?c then _ else _) = _ => destruct c eqn:Ee end.
+  - inversion H; subst. simpl. apply andb_prop in Ee as [_ El]. simpl in El. auto.
+  - eapply IH; eauto.
+Qed.
+
+Lemma Read_eof_state s n s' d bug : Read s n = (s', d, EEOF, bug) -> cur s' = [] /\ curIsLast s' = true.
+Proof.
+  unfold Read. destruct (readImpl s n) as [[[s1 d1] e1] b1] eqn:ER. intros H. inversion H; subst.
+  destruct (inc_own s1) as (_&A&_&B). rewrite A, B.
+  unfold readImpl in ER.
+  destruct (curIsLast s && (match cur s with [] => true | _ => false end)) eqn:E1.
+  { inversion ER; subst. simpl. apply andb_prop in E1 as [El Ec]. apply isnil_true in Ec. auto. }
+  destruct (cancelledLocally s || remoteEffective s).
+  { inversion ER. exfalso. eapply cancel_rerr_not_eof; eauto. }
+  destruct (shutdown s); [inversion ER|].
+  eapply readLoop_eof_state; eauto.
+Qed.
+
+Lemma frame_keeps_cur s data off fin cb s' e : handleStreamFrame s data off fin cb = (s', e) ->
+  cur s' = cur s /\ curIsLast s' = curIsLast s.
+Proof.
+  unfold handleStreamFrame. intros H.
+  destruct (fcUpdate s (off + len data) fin) as [s1 e1] eqn:Ef.
+  destruct (fcUpdate_err_same _ _ _ _ _ Ef) as (_&_&A3&_&_&_&_&_&_&_&A11).
+  match type of H with (let '(_, _) := ?X in _) = _ => destruct X as [s2 e2] eqn:E2 end.
+  inversion H; subst. destruct (inc_own s2) as (_&B1&_&B2). rewrite B1, B2.
+  assert (Hs2 : cur s2 = cur s1 /\ curIsLast s2 = curIsLast s1).
+  { revert E2. destruct e1; try (intros E2; inversion E2; subst; auto; fail).
+    destruct fin; simpl; destruct (cancelledLocally s1); try (intros E2; inversion E2; subst; auto; fail);
+      destruct (Push _ _ _ _) as [q rr]; intros E2; inversion E2; subst; auto. }
+  destruct Hs2 as (C1&C2). split; congruence.
+Qed.
+
+Lemma reset_keeps_cur s final reliable code s' e : handleResetStreamFrame s final reliable code = (s', e) ->
+  cur s' = cur s /\ curIsLast s' = curIsLast s.
+Proof.
+  unfold handleResetStreamFrame. intros H.
+  destruct (shutdown s).
+  { inversion H; subst. destruct (inc_own s) as (_&B1&_&B2). auto. }
+  destruct (fcUpdate s final true) as [s1 e1] eqn:Ef.
+  destruct (fcUpdate_err_same _ _ _ _ _ Ef) as (_&_&A3&_&_&_&_&_&_&_&A11).
+  match type of H with (let '(_, _) := ?X in _) = _ => destruct X as [s2 e2] eqn:E2 end.
+  inversion H; subst. destruct (inc_own s2) as (_&B1&_&B2). rewrite B1, B2.
+  assert (Hs2 : cur s2 = cur s1 /\ curIsLast s2 = curIsLast s1).
+  { revert E2. destruct e1; repeat match goal with |- context [if ?c then _ else _] => destruct c end;
+      intros E2; inversion E2; subst; simpl; auto. }
+  destruct Hs2 as (C1&C2). split; congruence.
+Qed.
+
+Definition EofInv (r : rrun) : Prop := rr_eof r = true -> cur (rr_st r) = [] /\ curIsLast (rr_st r) = true.
+
+Lemma rstep_EofInv r o r' : EofInv r -> rstep S r o = Some r' -> EofInv r'.
+Proof.
+  intros E Hs. destruct o as [off n fin cb|final reliable code|n|n|code|]; simpl in Hs.
+  - destruct (handleStreamFrame (rr_st r) (slice S off n) off fin cb) as [s' e] eqn:EH.
+    destruct e; try discriminate. inversion Hs; subst. intros He. simpl in *. specialize (E He).
+    destruct (frame_keeps_cur _ _ _ _ _ _ _ EH) as (A&B). rewrite A, B. auto.
+  - destruct (handleResetStreamFrame (rr_st r) final reliable code) as [s' e] eqn:EH.
+    destruct e; try discriminate. inversion Hs; subst. intros He. simpl in *. specialize (E He).
+    destruct (reset_keeps_cur _ _ _ _ _ _ EH) as (A&B). rewrite A, B. auto.
+  - destruct (Read (rr_st r) n) as [[[s' d] e] bug] eqn:ER. destruct bug; [discriminate|].
+    inversion Hs; subst. intros He. simpl in *. apply orb_prop in He. destruct He as [He|He].
+    + specialize (E He). destruct E as (Ec&El).
+      unfold Read in ER. destruct (readImpl (rr_st r) n) as [[[s1 d1] e1] b1] eqn:ER1. inversion ER; subst.
+      destruct (inc_own s1) as (_&B1&_&B2). rewrite B1, B2.
+      unfold readImpl in ER1. rewrite El, Ec in ER1. simpl in ER1. inversion ER1; subst. simpl. auto.
+    + destruct e; try discriminate. eapply Read_eof_state; eauto.
+  - destruct (PeekS (rr_st r) n) as [[[s' d] e] bug] eqn:EP. destruct bug; [discriminate|].
+    inversion Hs; subst. intros He. simpl in *. specialize (E He). destruct E as (Ec&El).
+    unfold PeekS in EP. destruct (n <=? 0); [inversion EP; subst; auto|].
+    unfold peekImpl in EP. rewrite El, Ec in EP. simpl in EP. inversion EP; subst. auto.
+  - inversion Hs; subst. intros He. simpl in *. specialize (E He). unfold CancelRead.
+    match goal with |- context [isNewlyCompleted ?X] => destruct (inc_own X) as (_&B1&_&B2); rewrite B1, B2 end.
+    destruct (cancelledLocally (rr_st r)); auto. destruct (shutdown (rr_st r)); auto.
+    destruct (errorRead (rr_st r) || cancelledRemotely (rr_st r)); simpl; auto.
+  - inversion Hs; subst. intros He. simpl in *. auto.
+Qed.
+
+Lemma rsrun_EofInv ops : forall r r', EofInv r -> rsrun S r ops = Some r' -> EofInv r'.
+Proof.
+  induction ops as [|o ops IH]; intros r r' E Hs; simpl in Hs.
+  - inversion Hs; subst. auto.
+  - destruct (rstep S r o) as [r1|] eqn:E1; [|discriminate]. apply (IH r1 r'); auto. eapply rstep_EofInv; eauto.
+Qed.
+
+(** once io.EOF was read, nothing is queued, nothing is owed: every buffer handed to the
+    sorter has been released exactly once *)
+Theorem recv_all_released_at_eof w ops r : 0 <= w < MaxBC -> Forall rvalid ops -> NoDup (rop_cbs ops) ->
+  rsrun S (rrun_init w) ops = Some r -> rr_eof r = true ->
+  queue (sorter (rr_st r)) = [] /\ held (rr_st r) = [] /\
+  Permutation (fired (sorter (rr_st r))) (rr_acc r) /\ NoDup (fired (sorter (rr_st r))).
+Proof.
+  intros Hw Hv Hnd Hs He.
+  destruct (rsrun_RRInv S ops _ _ (RRInv_init S w Hw) Hv Hs) as [R _ Heof].
+  destruct (Heof He) as (Hf&Hfin).
+  assert (EI : EofInv r) by (eapply rsrun_EofInv; eauto; intros Hx; discriminate).
+  destruct (EI He) as (Ec&El).
+  destruct (recv_buffers_once w ops r Hw Hv Hnd Hs) as (P&N&_).
+  pose proof (v_pos _ _ R) as Pp. pose proof (v_final _ _ R) as VF. rewrite Hf in VF.
+  unfold crest in Pp. rewrite Ec in Pp.
+  assert (Hq : queue (sorter (rr_st r)) = []).
+  { destruct (queue (sorter (rr_st r))) as [|[k en] q] eqn:Eq; auto. exfalso.
+    assert (Hin : In (k, en) (queue (sorter (rr_st r)))) by (rewrite Eq; simpl; auto).
+    destruct (i_ent _ _ (v_inv _ _ R) _ _ Hin) as (Hk&Hl&_).
+    assert (Hc : cov (queue (sorter (rr_st r))) k) by (exists k, en; split; auto; lia).
+    apply (v_below _ _ R) in Hc. lia. }
+  assert (Hh : held (rr_st r) = []) by (unfold held; rewrite El, Ec; reflexivity).
+  rewrite Hq, Hh in P, N. simpl in P, N. rewrite app_nil_r in P, N. auto.
+Qed.
+
 End WithS.
